@@ -125,7 +125,7 @@ class MPIIntegrate(_MPISweep):
     def post(self, st, old, result, exc):
         L, inst, log = st.L, st.inst, st.log
         M, r = inst['M'], inst['rank']
-        Q, dt = L.sweep.coll.Qmat, L.dt
+        Q, dt = L.sweep.coll.Qmat, L.params.dt
         yield 'returns_normally', exc is None
         if exc is not None:
             return
@@ -147,7 +147,7 @@ class MPIIntegrate(_MPISweep):
 
     def canary(self, st, old, result, exc):
         e = [x for x in st.log if x[0] == 'Reduce'][0]
-        yield 'canary:contribution_uses_transposed_entry', veq(e[1], st.L.dt * st.L.sweep.coll.Qmat[st.inst['rank'] + 1, e[3] + 1] * ftot(st.old_f[st.inst['rank'] + 1])) if st.inst['M'] > 1 and e[3] != st.inst['rank'] else False
+        yield 'canary:contribution_uses_transposed_entry', veq(e[1], st.L.params.dt * st.L.sweep.coll.Qmat[st.inst['rank'] + 1, e[3] + 1] * ftot(st.old_f[st.inst['rank'] + 1])) if st.inst['M'] > 1 and e[3] != st.inst['rank'] else False
 
 
 class MPIUpdateNodes(_MPISweep):
@@ -169,7 +169,7 @@ class MPIUpdateNodes(_MPISweep):
     def post(self, st, old, result, exc):
         L, inst, log, P = st.L, st.inst, st.log, st.L.prob
         M, r = inst['M'], inst['rank']
-        sw, dt = L.sweep, L.dt
+        sw, dt = L.sweep, L.params.dt
         Q = sw.coll.Qmat
         yield 'returns_normally', exc is None
         if exc is not None:
@@ -188,7 +188,7 @@ class MPIUpdateNodes(_MPISweep):
         rec = P.find_solve(L.u[r + 1])
         yield 'my_node:is_a_solve', rec is not None and len(P.solves) == 1
         if rec is not None:
-            tm = L.time + dt * sw.coll.nodes[r]
+            tm = L.status.time + dt * sw.coll.nodes[r]
             yield 'my_node:solve_rhs', veq(rec.rhs, rhs)
             yield 'my_node:solve_factor', seq(rec.factor, dt * sw.QI[r + 1, r + 1])
             yield 'my_node:solve_time', seq(rec.t, tm)
@@ -228,7 +228,7 @@ class MPIEndPoint(_MPISweep):
     def post(self, st, old, result, exc):
         L, inst, log = st.L, st.inst, st.log
         M, r = inst['M'], inst['rank']
-        sw, dt = L.sweep, L.dt
+        sw, dt = L.sweep, L.params.dt
         yield 'returns_normally', exc is None
         if exc is not None:
             return
@@ -277,7 +277,7 @@ class MPIResidual(_MPISweep):
     def post(self, st, old, result, exc):
         L, inst, log = st.L, st.inst, st.log
         M, r, rt = inst['M'], inst['rank'], inst['rt']
-        sw, dt = L.sweep, L.dt
+        sw, dt = L.sweep, L.params.dt
         Q = sw.coll.Qmat
         yield 'returns_normally', exc is None
         if exc is not None:
